@@ -24,3 +24,8 @@ VARIANTS = [
     M('C08', 'refactor-fstring-template', E(DR, "        sql = 'SELECT COUNT(*) FROM %s' % tablename\n        return self.execute_scalar(sql)", "        sql = f'SELECT COUNT(*) FROM {tablename}'\n        return self.execute_scalar(sql)"),
       kind='refactor'),
 ]
+
+VARIANTS += [
+    M('C08', 'class-level-type-memo', E(DR, "    def get_database_column_type(self, tablename, colname):\n        typeMap = {", "    column_types = {}\n\n    def get_database_column_type(self, tablename, colname):\n        if (tablename, colname) in self.column_types:\n            return self.column_types[(tablename, colname)]\n        self.column_types[(tablename, colname)] = None\n        typeMap = {"),
+      rule='C08-NOSHARED', key='column_types'),
+]
